@@ -191,19 +191,22 @@ def scenario_params(tier):
 
 def run(ctx):
     bound = 1 if ctx.quick else 2
-    specs = []
+    specs, deep_specs = [], []
     for params in scenario_params(ctx.tier):
         spinning = "spinner" in params["asyncio"] or "spinner" in params["trio"]
         # a payload adopted while the trigger fires: the submitter may be descheduled and
         # resumed anywhere in the shutdown sequence (two deviations) - also in the quick tier
         deep = params["asyncio"] == "late" and params["trio"] == "none"
-        specs.append({
+        pieces = specs if not (deep and ctx.quick) else deep_specs
+        pieces.append({
             "module": "checks.c02", "params": params, "bound": 2 if deep else bound,
             "opts": {"spin_time": 0.05 if spinning else 0.0, "time_horizon": 40.0,
                      "drain": 4.0, "max_points": 8000, "free_switch_cost": 1,
                      "time_jump_cost": None if ctx.quick else 1},
             "budget": (8000 if deep else 3000) if ctx.quick else 40000,
         })
+    for spec in deep_specs:
+        specs += H.split(spec, 8)
     if not ctx.quick:
         specs += H.line_variants(
             specs, lambda p: p["blocked_thread"] and (
